@@ -70,6 +70,20 @@ def run_case(c):
                     st.increment(l, nlive=n)
             zrect = fl(st.logZ)
             ret = st.finalise()
+        # reading is not writing: read every public property of the state (twice), scribble on the arrays that were
+        # returned, and only then collect what the state reports
+        first_w = [fl(v) for v in st.log_posterior_weights]
+        first_z = fl(st.logZ)
+        for _ in range(2):
+            for name in dir(type(st)):
+                if not name.startswith("_") and isinstance(getattr(type(st), name, None), property):
+                    try:
+                        v = getattr(st, name)
+                        if isinstance(v, np.ndarray) and v.dtype.kind == "f" and v.flags.writeable:
+                            v += 1.0
+                    except Exception:
+                        pass
+        out["stable"] = bool(first_w == [fl(v) for v in st.log_posterior_weights] and (first_z == fl(st.logZ) or first_z != first_z))
         out["st"] = {
             "log_vols": [fl(v) for v in st.log_vols],
             "logLs": [fl(v) for v in st.logLs],
